@@ -1,0 +1,49 @@
+//go:build verif
+
+package extcfs
+
+// Machine-checked contracts for /verif (gowp). Comment-only file: it adds no code.
+
+// 4-byte little-endian cipher tag
+//@ func NewCipherKey [C05]
+//@   requires len(b) >= 4
+//@   modifies $none
+//@   ensures int(result) == b[0] + 256 * b[1] + 65536 * b[2] + 16777216 * b[3]
+
+//@ func CipherKey.ToBinary [C05]
+//@   modifies $none
+//@   ensures len(b) == 4 && fresh(arr(b))
+//@   ensures b[0] == int(key) % 256 && b[1] == (int(key) / 256) % 256 && b[2] == (int(key) / 65536) % 256 && b[3] == (int(key) / 16777216) % 256
+// tag round trip: decoding the encoding of any 32-bit key gives the key back
+//@   lemma forall(v, 0 <= v && v < 4294967296 ==> (v % 256) + 256 * ((v / 256) % 256) + 65536 * ((v / 65536) % 256) + 16777216 * ((v / 16777216) % 256) == v)
+
+//@ func NewCipher [C05]
+//@   ensures err == nil ==> result != nil
+//@   ensures err != nil ==> result == nil
+
+// stored format: tag of the default cipher followed by that cipher's output
+//@ func Cipher.Encrypt [C05]
+//@   requires c.defaultCiper != nil
+//@   modifies $g.hashin, $g.rpos
+//@   trace Cipher.Encrypt as ENC bind inner
+//@   ensures err != nil ==> encrypted == nil
+//@   ensures err == nil ==> len(encrypted) == 4 + len(inner.0)
+//@   ensures err == nil ==> encrypted[0] == int(c.defaultCiperKey) % 256 && encrypted[1] == (int(c.defaultCiperKey) / 256) % 256 && encrypted[2] == (int(c.defaultCiperKey) / 65536) % 256 && encrypted[3] == (int(c.defaultCiperKey) / 16777216) % 256
+//@   ensures err == nil ==> forall(k, 0 <= k && k < len(inner.0) ==> encrypted[4 + k] == inner.0[k])
+
+// any byte slice: data, or an error and no data; never a panic. The payload after the tag goes to the tagged cipher.
+//@ func Cipher.Decrypt [C05]
+//@   modifies $g.hashin
+//@   at_call Cipher.Decrypt requires len(data) >= 4 && arr($1) == arr(data) && off($1) == off(data) + 4 && len($1) == len(data) - 4 && $0 == key
+//@   ensures err != nil ==> decrypted == nil
+
+//@ func Cipher.DecryptReader [C05]
+//@   requires stream != nil
+//@   ensures err != nil ==> reader == nil
+
+//@ func Cipher.EncryptWriter [C05]
+//@   requires stream != nil && c.defaultCiper != nil
+//@   trace Write as TAG
+//@   trace Cipher.EncryptWriter as INNER
+//@   trace_ensures err == nil : ^TAG INNER $
+//@   ensures err != nil ==> writer == nil
